@@ -1368,7 +1368,10 @@ class StatusType(TupleOf):
         super().__init__(EnumType(self.enum), StringType())
 
     def __getattr__(self, key):
-        return self.enum[key]
+        try:
+            return self.enum[key]
+        except KeyError:
+            raise AttributeError(f'{type(self).__name__} has no attribute or status code {key!r}') from None
 
 
 def floatargs(kwds):
